@@ -100,7 +100,7 @@ theorem forwardsAll_ok (a0 : TraitAttr) (o : Opts) (t : TraitItem) (fns : List T
 
 theorem implHeader_ok (a0 : TraitAttr) (o : Opts) (t : TraitItem) (fns : List TraitFn) :
     implHeaderOk t (traitImplBlock { a0 with opts := o } t fns) = true := by
-  simp [implHeaderOk, traitImplBlock, traitTg, traitWithArgs, genericArgs, ImplIndirection.isNone]
+  simp [implHeaderOk, traitImplBlock, traitTg, traitWithArgs, genericArgs, ImplIndirection.isNone, implParams]
 
 theorem T_C06 (v : Variant) (attr : Toks) (item : Item) (out : Out)
     (h : expand v attr item = .ok out) : P_C06 attr item out.view = true := by
